@@ -11,6 +11,11 @@ Correspondence (implementation vs the Lean model through the driver):
   F  the CLI `fieldcompare._cli.main(["file", a.pvd, b.pvd, ...])`: exit code and the ordered
      step comparisons performed (calls of `_compare_field_data`, NOT log text), lengths 1..8, deviating step (value / mesh / missing field) at every
      position, all three sequence options; sequence vs single data set; (thorough) XDMF time series
+  IX (phase 5) the iteration machine on REAL XDMF time series written with meshio's TimeSeriesWriter (heavy data in
+     HDF5, inlined XML, raw binary), lengths 1..5: directed call histories on ONE sequence object (complete pass twice
+     / three times, pass suspended at the last step then complete pass, partial then complete passes, zip-style
+     interleaving, list() repeatedly) against `Fc.runHist`; every yielded step compared field by field with the data
+     written
 
 Search: implementation vs the property (Python oracle): each iteration yields 0..n-1 in order, compared
 pairs are (i,i) for i < min, exit code 0 iff (equal lengths or ignore) and every common step passes,
@@ -244,6 +249,66 @@ def part_I(ctx, files):
                  tags=["I-" + c["carrier"], "I-" + c["style"], f"n={c['n']}"],
                  sample={"case": c, "impl": got[:6], "lean": rep})
         check_iter(ctx, c, got, rep, wc)
+
+
+# ------------------------------------------------------------------ IX: iteration machine on real XDMF time series
+
+def run_xdmf_hist(xfiles, case):
+    """-> (events, content problems, number_of_steps, [list() results]) for one history on ONE freshly read object"""
+    import fieldcompare.io as fio
+    from fcv import xdmfseq_p5c as X
+    seq = fio.read(xfiles.path(case["fmt"], case["n"]))
+    nsteps = seq.number_of_steps
+    got, probs = X.drive(seq, case["G"], case["hist"], step_id)
+    lists = [safe_steps(seq) for _ in range(case.get("lists", 0))]      # the same object, after the history
+    return got, probs, nsteps, lists
+
+
+def check_xdmf(ctx, case, got, probs, nsteps, lists, rep):
+    n = case["n"]
+    if nsteps != n:
+        ctx.violation(case, nsteps, n, what="number_of_steps of an XDMF time series")
+    check_iter(ctx, case, got, rep, False)
+    for p in probs[:1]:
+        ctx.violation(case, p, "the fields written for that step",
+                      what="a step yielded by an XDMF sequence does not carry the data written for it")
+    if any(l != list(range(n)) for l in lists):
+        ctx.violation(case, lists, [list(range(n))] * len(lists),
+                      what="list(sequence) repeated on the same XDMF sequence object (after the call history)")
+
+
+def part_IX(ctx):
+    from fcv import xdmfseq_p5c as X
+    fmts = X.available_formats()
+    if not fmts:
+        ctx.notes.append("meshio not importable: XDMF iteration part skipped")
+        return
+    if "HDF" not in fmts:
+        ctx.notes.append("h5py not importable: XDMF time series with HDF5 heavy data not covered")
+    rng = ctx.rng
+    cases, results = [], []
+    xfiles = X.XdmfFiles()      # (the process works inside the temporary directory until close())
+    try:
+        for fmt in fmts:
+            for n in range(1, ctx.scale(5, 8) + 1):
+                hists = X.directed_histories(n)
+                for _ in range(ctx.scale(2, 20)):
+                    hists.append(gen_hist(rng, n))
+                for k, (G, hist, style) in enumerate(hists):
+                    case = {"part": "I", "carrier": "xdmf", "fmt": fmt, "n": n, "cur0": 0, "G": G, "hist": hist,
+                            "style": style, "final_cur": None, "lists": 2 if k % 3 == 0 else 0}
+                    cases.append(case)
+                    results.append(run_xdmf_hist(xfiles, case))
+    finally:
+        xfiles.close()
+    lines = [f"c15iter {c['n']} 0 {c['G']} {len(c['hist'])} " + " ".join(map(str, c["hist"])) for c in cases]
+    lines = [l.strip() for l in lines]
+    reps = ctx.lean(lines) if ctx.driver_ok else [None] * len(cases)
+    for c, (got, probs, nsteps, lists), rep, line in zip(cases, results, reps, lines):
+        ctx.case(("IX", c["fmt"], c["lists"], line), nontrivial=len(c["hist"]) > 1,
+                 tags=["I-xdmf", "I-xdmf-" + c["fmt"], "IX-" + c["style"], f"n={c['n']}"],
+                 sample={"case": c, "impl": got[:8], "lean": rep})
+        check_xdmf(ctx, c, got, probs, nsteps, lists, rep)
 
 
 # ------------------------------------------------------------------ M: merging with prescribed step suites
@@ -690,7 +755,7 @@ def part_X(ctx):
 
 
 def run(ctx):
-    ctx.rule = ("T: every (status, test list <= 2) of TestSuite; I: (carrier custom/pvd, n, initial cursor, number of generators, "
+    ctx.rule = ("T: every (status, test list <= 2) of TestSuite; I: (carrier custom/pvd/xdmf (HDF5, XML, binary heavy data), n, initial cursor, number of generators, "
                 "history of next() calls: sequential full/abandoned iterations or interleaved); M: (options, lengths, initial "
                 "cursors, prescribed per-step suites incl. one deviating step at first/last/random position); F: (result and "
                 "reference step variants, options) through the CLI on generated .pvd/.vtu files; non-trivial = at least one "
@@ -707,6 +772,7 @@ def run(ctx):
         if ctx.driver_ok:
             part_T(ctx)
         part_I(ctx, files)
+        part_IX(ctx)
         part_M(ctx)
         part_F(ctx, files)
         if ctx.tier == "thorough":
@@ -747,6 +813,19 @@ def replay_case(ctx, c):
         if part == "I":
             from fieldcompare import FieldDataSequence
             import fieldcompare.io as fio
+            if c["carrier"] == "xdmf":
+                from fcv import xdmfseq_p5c as X
+                xfiles = X.XdmfFiles()
+                try:
+                    got, xprobs, nsteps, lists = run_xdmf_hist(xfiles, c)
+                finally:
+                    xfiles.close()
+                line = f"c15iter {c['n']} 0 {c['G']} {len(c['hist'])} " + " ".join(map(str, c["hist"]))
+                rep = ctx.lean([line.strip()])[0] if ctx.driver_ok else None
+                print("replay: impl", got, "content problems", xprobs, "list() after the history", lists)
+                check_xdmf(ctx, c, got, xprobs, nsteps, lists, rep)
+                return [m["what"] for m in ctx.corr_mismatch] + [v["what"] for v in ctx.spec_viol] \
+                    + ["model vs spec" for _ in ctx.internal]
             if c["carrier"] == "custom":
                 src = RecSource(c["n"], c["cur0"])
                 got = drive(FieldDataSequence(src), c["G"], c["hist"], calls_of=src)
